@@ -45,6 +45,10 @@ def make_data(cfg):
     rids = list(range(cfg['n_rdm']))
     cids = cfg.get('cids') or list(range(cfg['n_cond']))
     d = selfdesc.build(rids, cids, container=cfg.get('container', 'list'))
+    if cfg.get('rdm_draw'):
+        # an object that is itself a bootstrap sample over RDMs: its 'index' descriptor holds the
+        # drawn source positions (repeats, in draw order); copies of one RDM are one group
+        d = d.subsample('rid', cfg['rdm_draw'])
     rg = cfg.get('rdm_groups')
     pg = cfg.get('pat_groups')
     if rg is not None:
@@ -271,6 +275,19 @@ def configs(tier):
             for size in range(1, ngr // 2 + 1):
                 for rnd in (False, True):
                     out.append(dict(base, gen='sets_of_k_rdm', size=size, random=rnd))
+    # RDM folds on an object that already holds bootstrap copies of RDMs (default 'index' grouping)
+    for draw in ([2, 0, 2, 1], [1, 3, 1, 0, 3]):
+        base = {'n_rdm': max(draw) + 1, 'n_cond': 4, 'rdm_desc': 'index', 'rdm_groups': None, 'pat_desc': 'index',
+                'pat_groups': None, 'rdm_draw': draw}
+        ngr = len(set(draw))
+        out.append(dict(base, gen='sets_leave_one_out_rdm'))
+        for k in range(2, ngr + 1):
+            for rnd in (False, True):
+                out.append(dict(base, gen='sets_k_fold_rdm', k_rdm=k, random=rnd))
+                out.append(dict(base, gen='sets_k_fold', k_rdm=k, k_pattern=1, random=rnd))
+                out.append(dict(base, gen='sets_k_fold', k_rdm=k, k_pattern=2, random=rnd))
+        out.append(dict(base, gen='sets_of_k_rdm', size=1, random=False))
+        out.append(dict(base, gen='sets_random', n_test_rdm=1, n_test_pattern=1, n_cv=2, random=True))
     for n_cond in csizes:
         for pd, pg in _pat_groupings(n_cond, tier):
             ngp = n_cond if pg is None else max(pg) + 1
@@ -337,7 +354,7 @@ def shards(tier, seed):
         out.append({'kind': 'structure', 'cfgs': light[i:i + 12]})
     leak = [c for c in cfgs if c['gen'] in ('sets_k_fold', 'sets_k_fold_pattern', 'sets_k_fold_rdm',
                                             'sets_leave_one_out_pattern', 'sets_leave_one_out_rdm', 'sets_random')
-            and c['n_cond'] <= 5 and c['n_rdm'] <= 3 and c.get('cids') is None]
+            and c['n_cond'] <= 5 and c['n_rdm'] <= 3 and c.get('cids') is None and not c.get('rdm_draw')]
     step = 1 if tier == 'thorough' else 6
     leak = leak[::step]
     for i in range(0, len(leak), 4):
